@@ -305,7 +305,11 @@ def h_cli(ctx, end, accts=None):
         if present[name]:
             argv += [opt, acct]
     dates = {}
-    for opt, name, text, inst in (("-s", "dtstart", "20070101", datetime.datetime(2007, 1, 1, tzinfo=UTC)), ("-e", "dtend", "20071231", datetime.datetime(2007, 12, 31, tzinfo=UTC)),
+    # every OFX date-time notation is a legal option value: date only, with time, with milliseconds and a (negative) offset
+    forms = [("20070101", datetime.datetime(2007, 1, 1, tzinfo=UTC)), ("20070101120000", datetime.datetime(2007, 1, 1, 12, tzinfo=UTC)),
+             ("20070101120000.000[-5:EST]", datetime.datetime(2007, 1, 1, 17, tzinfo=UTC)), ("20070101070000[+5.30]", datetime.datetime(2007, 1, 1, 1, 30, tzinfo=UTC))]
+    f = ctx.choice("start_form", list(range(len(forms)))) if accts is None or len(accts) <= 2 else 0
+    for opt, name, text, inst in (("-s", "dtstart", forms[f][0], forms[f][1]), ("-e", "dtend", "20071231", datetime.datetime(2007, 12, 31, tzinfo=UTC)),
                                   ("-a", "dtasof", "20071130", datetime.datetime(2007, 11, 30, tzinfo=UTC))):
         if end and name == "dtasof":
             continue
@@ -378,5 +382,6 @@ def instances(tier, seed):
             mk(f"all[{n},end={end}]", "all", dict(n=n, end=end))
         mk(f"stmt_wire[end={end}]", "stmt_wire", dict(end=end))
         mk(f"cli[end={end}]", "cli", dict(end=end, accts=None if full else ["checking", "creditline", "creditcard", "investment"]))
+        mk(f"cli[end={end},date notations]", "cli", dict(end=end, accts=["checking", "creditcard"]))
         mk(f"stmt_model[end={end}]", "stmt_model", dict(end=end, nbank=2 if not full else 3))
     return out
